@@ -99,6 +99,33 @@ def vivWf (I : VIv) : Bool :=
   | some c => c < 0 || (c == 0 && !I.2.1 && !I.2.2.2)
   | none => true
 
+/-- the attained finite end points of a value interval (closed ends, the point of a point interval) -/
+def vivAttained (I : VIv) : List Val :=
+  let fin (v : Val) : Bool := match v with | .int _ | .dy _ | .rat _ | .alg _ => true | _ => false
+  (if !I.2.1 && fin I.1 then [I.1] else []) ++ (if !I.2.2.2 && fin I.2.2.1 && (Val.cmp I.1 I.2.2.1 != some 0) then [I.2.2.1] else [])
+
+/-- exact sign of `x ⊕ y − e` for finite values (x0 := x, x1 := y, x2 := e), by the proved sign procedure -/
+def vivSignAt (mul : Bool) (x y e : Val) : Option Int :=
+  match x.toZ?, y.toZ?, e.toZ? with
+  | some a, some b, some c =>
+    let lhs : MPoly := if mul then [([(0, 1), (1, 1)], 1)] else [([(0, 1)], 1), ([(1, 1)], 1)]
+    Eval.exactSign (MPoly.normalize none (lhs ++ [([(2, 1)], -1)])) [(0, a), (1, b), (2, c)]
+  | _, _, _ => none
+
+/-- exact membership of `x ⊕ y` in the value interval `R`; `none` = undecided (infinite end of a kind not handled, fuel) -/
+def vivMemExact (mul : Bool) (x y : Val) (R : VIv) : Option Bool :=
+  let lowOk : Option Bool := match R.1 with
+    | .minf => some true
+    | .pinf | .none => some false
+    | e => (vivSignAt mul x y e).map (fun s => s > 0 || (s == 0 && !R.2.1))
+  let upOk : Option Bool := match R.2.2.1 with
+    | .pinf => some true
+    | .minf | .none => some false
+    | e => (vivSignAt mul x y e).map (fun s => s < 0 || (s == 0 && !R.2.2.2))
+  match lowOk, upOk with
+  | some a, some b => some (a && b)
+  | _, _ => none
+
 def checkVIA (op : String) (args res : List String) : Verdict :=
   let lost (pts : List (String × Rat)) (R : VIv) : Option String :=
     pts.findSome? (fun p => match vivMem R p.2 with | some false => some p.1 | _ => none)
@@ -109,9 +136,15 @@ def checkVIA (op : String) (args res : List String) : Verdict :=
        if !vivWf R then .viol s!"via-{op}" s!"ill-formed result {r}" else
        let pts := (vivSamples A).flatMap (fun x => (vivSamples B).map (fun y =>
          (s!"{showRat x}{if op = "add" then "+" else "*"}{showRat y}", if op = "add" then x + y else x * y)))
-       match lost pts R with
-       | some w => .viol s!"via-{op}" s!"lost point {w}: not in the returned interval {r}"
-       | none => .ok s!"via/{op}/{if pts.isEmpty then "nosample" else "sampled"}"
+       -- attained end points, irrational ones included: x ⊕ y must lie in the result (exact sign of x ⊕ y − end point)
+       let isAlg (v : Val) : Bool := match v with | .alg _ => true | _ => false
+       let exact := (vivAttained A).flatMap (fun x => (vivAttained B).filterMap (fun y =>
+         if isAlg x || isAlg y then some (x, y) else none))
+       let lostExact := exact.find? (fun xy => vivMemExact (op = "mul") xy.1 xy.2 R == some false)
+       match lost pts R, lostExact with
+       | some w, _ => .viol s!"via-{op}" s!"lost point {w}: not in the returned interval {r}"
+       | none, some _ => .viol s!"via-{op}" s!"lost an attained end point: the {if op = "add" then "sum" else "product"} of two attained (irrational) end points is not in the returned interval {r}"
+       | none, none => .ok s!"via/{op}/{if pts.isEmpty then "nosample" else "sampled"}{if exact.isEmpty then "" else "/exact-ends"}"
      | _, _, _ => .skip "bad")
   | "pow", [a, n], [r] =>
     (match pVInt? a, pNat? n, pVInt? r with
